@@ -367,7 +367,7 @@ for rep in (1, 2, 3, 4):
             UC("c01-uni-dec-" + tag, "uni", "uni_decision::<%d,%d,%d,%d,0>()" % (rep, alg, h, n), dp, "bounded", UNI_FNS[alg],
                "%s_match (%s) succeeds exactly when the documented relation holds over the characters" % (aname, REPNAME[rep]),
                unwind=max(h + 3, 7), bound=bound + ("; fuzzy_match_optimal replaced by its contract" if heavy else ""), cost=5 if heavy else 4, timeout=1500, stubs=CHAR_STUBS + (OPT_STUB if heavy else []),
-               expect="known:D2" if rep == 3 else "pass")
+               expect="known:D2" if rep == 3 else "pass", core=(rep == 3 and alg in (0, 2)))
             if rep in (1, 2):
                 wp = {"C02": tier, "C03": tier}
                 wp.update(dp)
